@@ -1,18 +1,67 @@
 use crate::fw::Prop;
 
+pub mod c03;
 pub mod c06;
 pub mod c07;
 pub mod c09;
+pub mod c10;
+pub mod c12;
+pub mod c13;
+pub mod c14;
 pub mod c15;
+pub mod c16;
+pub mod c18;
+pub mod c19;
+pub mod c20;
+pub mod c21;
+pub mod c22;
+pub mod c23;
+pub mod c24;
+pub mod c25;
+pub mod c26;
+pub mod c27;
+pub mod c28;
+pub mod c30;
+pub mod c31;
+pub mod c32;
+pub mod c35;
+pub mod c36;
 pub mod c37;
 pub mod c38;
+pub mod features_util;
+pub mod floatlit_util;
+pub mod library_util;
+pub mod pat_util;
 
 pub fn all() -> Vec<Box<dyn Prop>> {
     vec![
+        Box::new(c03::C03),
         Box::new(c06::C06),
         Box::new(c07::C07),
         Box::new(c09::C09),
+        Box::new(c10::C10),
+        Box::new(c10::C11),
+        Box::new(c12::C12),
+        Box::new(c13::C13),
+        Box::new(c14::C14),
         Box::new(c15::C15),
+        Box::new(c16::C16),
+        Box::new(c18::C18),
+        Box::new(c19::C19),
+        Box::new(c20::C20),
+        Box::new(c21::C21),
+        Box::new(c22::C22),
+        Box::new(c23::C23),
+        Box::new(c24::C24),
+        Box::new(c25::C25),
+        Box::new(c26::C26),
+        Box::new(c27::C27),
+        Box::new(c28::C28),
+        Box::new(c30::C30),
+        Box::new(c31::C31),
+        Box::new(c32::C32),
+        Box::new(c35::C35),
+        Box::new(c36::C36),
         Box::new(c37::C37),
         Box::new(c38::C38),
     ]
